@@ -982,6 +982,10 @@ func (ft *fnTrans) loopHead(li *loopInfo, b *ssa.BasicBlock, h *Heap, entryPreds
 		li.phiTerm[phi] = n
 		ft.assumeWF(n, phi.Type(), *h)
 	}
+	// implicit invariant of range-over-slice loops: the hidden index starts at -1 and is incremented by one
+	if li.rangeIx != nil && ft.isCanonicalRangeIndex(li) {
+		vc.assume("(>= " + li.phiTerm[li.rangeIx] + " (- 1))")
+	}
 	li.heapAt = h.clone()
 	// 3. assume invariants
 	envHead := ft.envAt(*h, li, li.phiTerm)
@@ -1055,4 +1059,29 @@ func (ft *fnTrans) computeLoopWrites(li *loopInfo) {
 			}
 		}
 	}
+}
+
+
+// isCanonicalRangeIndex checks the go/ssa shape of a range loop's hidden index: phi [entry: -1, back: phi+1].
+func (ft *fnTrans) isCanonicalRangeIndex(li *loopInfo) bool {
+	phi := li.rangeIx
+	for j, p := range li.header.Preds {
+		e := phi.Edges[j]
+		if ft.isBackEdge(p, li.header) {
+			b, ok := e.(*ssa.BinOp)
+			if !ok || b.Op != token.ADD || b.X != phi {
+				return false
+			}
+			c, ok := b.Y.(*ssa.Const)
+			if !ok || c.Int64() != 1 {
+				return false
+			}
+		} else {
+			c, ok := e.(*ssa.Const)
+			if !ok || c.Int64() != -1 {
+				return false
+			}
+		}
+	}
+	return true
 }
